@@ -18,7 +18,14 @@ P = {
                   'is a theorem: GetHashFn over TrackHistoricalInfo is transcribed, any interleaving of queries / CheckTx / restarts '
                   'leaves two replicas with the same historical info after every block, the available heights are characterised exactly '
                   '(max 1 (n-e+1) <= req < n, n-req <= 256), and the zero / non-zero pattern the probe observed is compared with that '
-                  'model for every history',
+                  'model for every history. The FEE-MARKET REGIME is a dimension of the histories: x/feemarket genesis parameters (base fee '
+                  'from 0 and the natural floor 7 up to 1e12, denominator 1..2^32-1, elasticity 1..10, MinGasPrice, MinGasMultiplier, NoBaseFee, '
+                  'EnableHeight), the consensus Block.MaxGas (-1 and finite values that put generated blocks above and below the gas target) '
+                  'and parameter operations on both on the way, with fees that follow the fee market; that the base fee (rewritten by every '
+                  'BeginBlock) depends on the block inputs only is a theorem over all interleavings of blocks with queries / CheckTx / restarts '
+                  '/ further application objects, the block step being the block of the C17 model; a process-global "1" of the minimum step '
+                  '(the shared-value variant) provably breaks the agreement; every BeginBlock of the leading replica is re-evaluated by '
+                  'calc_base_fee inside Coq',
     'level_note': 'partial by nature: Go map iteration order, goroutine scheduling, IAVL hashing and the wall clock cannot be exhibited '
                   'in Coq; the theorems are about hand-written models (commit: shared with C02 and tied there; registries / DAO export: '
                   'tied by the registries driver; ante functions: transcribed, tied only through the replica run with different '
@@ -26,17 +33,20 @@ P = {
     'technique': 'Coq proof (permutation invariance through sorting / sets / look-ups; induction over blocks) + N-replica differential '
                  'execution of random block histories + typed source scan of order / scheduling / clock sites with a reviewed '
                  'classification file; replicas with explicit, replayable process-history perturbations and an '
-                 'environment-probe contract; Coq model of the BLOCKHASH environment function evaluated on the observed pattern',
+                 'environment-probe contract; Coq model of the BLOCKHASH environment function evaluated on the observed pattern; '
+                 'fee-market regimes (tiny base fee, finite block gas, minimum-step increases before and after restarts) with the C17 '
+                 'base-fee model evaluated on every block',
     'drivers': [
         {'name': 'mapscan', 'n': {'quick': 1, 'thorough': 1}},
         {'name': 'replicas', 'n': {'quick': 64, 'thorough': 800}, 'shrink_field': 'blocks', 'batch': 12, 'timeout': 3000},
         {'name': 'registries', 'n': {'quick': 160, 'thorough': 3000}, 'batch': 2000},
         {'name': 'upgrade175', 'n': {'quick': 0, 'thorough': 3}, 'timeout': 3000},
     ],
-    'coq_header': 'From HV Require Import App.DeterminismModel.\nFrom Coq Require Import ZArith NArith List.\nImport ListNotations.',
+    'coq_header': 'From HV Require Import Feemarket.BaseFeeModel App.FeeReplicaModel App.DeterminismModel App.ReplicaCaseModel.\n'
+                  'From Coq Require Import ZArith NArith List.\nImport ListNotations.',
     'lists': {'sites': {'type': 'N', 'check': 'site_mismatches', 'shard': 400},
               'regs': {'type': 'rcase', 'check': 'rmismatches', 'shard': 100},
-              'bh': {'type': 'bh_case', 'check': 'bh_mismatches', 'shard': 40}},
+              'rep': {'type': 'rep_case', 'check': 'rep_mismatches', 'shard': 40}},
     'search': {'rounds': 2, 'n': 40},
     'rule': 'replicas: a case is one block history (quick 15 blocks / 2 replicas, thorough 40 blocks / 3 replicas; every 4th history '
             'adds a replica in a separate OS process whose environment differs: TZ 14 h ahead, Turkish locale, no home directory; replica 1 runs with the access_list EVM tracer option) generated as for C15 (really signed Cosmos and Ethereum transactions incl. '
@@ -49,21 +59,38 @@ P = {
             '(bhBlock.pre / bhInput.proc, harness/replica_perturb.go: ethcall, estimategas, trace, simulate, bankq, stakingq, evmq, '
             'checktx-next, checktx-junk, restart, construct; construction order and throw-away instances), two scripted shapes in 3 of 4 '
             'histories with 2 <= HistoricalEntries (a height evaluated by a query on one replica, or by a transaction followed by a '
-            'restart of one replica, while its header is kept, and again by a transaction after it was pruned); list bh: per history '
-            '(HistoricalEntries, [(context height, asked word, answer non-zero)]) from delivered probe calls and eth_call answers vs '
-            'hash_fn (hist_after e _ cur); compared after every block: BeginBlock response, every '
+            'restart of one replica, while its header is kept, and again by a transaction after it was pruned); '
+            'FEE-MARKET REGIME (harness/feeregime.go; bhGenesis.fee, param operations on feemarket / consensus): 36 % of the histories keep the '
+            'defaults (base fee 1e9, Block.MaxGas -1: no block is ever above the gas target), 34 % start at a base fee of 0..100 (incl. the natural '
+            'floor 7) with Block.MaxGas 6M..16M, elasticity 1..4, denominator 2 / 8 / 50, MinGasMultiplier 0.1 / 0.5 / 1, MinGasPrice 0 / 0.5 / 1 / 3, '
+            '30 % draw every parameter from a wide set (base fee 0..1e12, denominator 1..4294967295, elasticity 1..10, MinGasMultiplier 0..1, '
+            'MinGasPrice 0..2.5e9, NoBaseFee, EnableHeight 0 / 3 / 6, Block.MaxGas -1 / 3M..40M); such histories also change the feemarket '
+            'parameters and Block.MaxGas on the way through the real MsgUpdateParams handlers (ElasticityMultiplier 0 and MaxGas 0 are not generated: '
+            'division by zero in BeginBlock on every node alike); 2-4 blocks of a history are HEAVY (explicit filler transactions until the gas figure '
+            'max(wanted x multiplier, used) is above the target), 1-3 are QUIET (empty); the fee of every generated transaction is gas x max(base fee, '
+            'MinGasPrice) of the state it is built on (dynamic-fee transactions: tip lifted to MinGasPrice); in 60 % of these histories one replica is '
+            'restarted from its database, or sees a throw-away application take a minimum step of its own in the same process, between the first two '
+            'heavy blocks; every throw-away application runs a tiny-base-fee chain over a block above its target; tags fee:* name the branches of the '
+            'base-fee update the history took (decrease, decrease-zero-delta, decrease-to-min-gas-price, unchanged, increase, increase-min-step = '
+            'base x (gas - target) / target / denominator truncated to 0, disabled, enable-height), how often the minimum step and whether a restart / '
+            'construction lay between two of them; list rep: per history (BLOCKHASH answers: (HistoricalEntries, [(context height, asked word, answer '
+            'non-zero)]) from delivered probe calls and eth_call answers vs hash_fn (hist_after e _ cur); base fee: for every BeginBlock of the leading '
+            'replica (parameters read, height, Block.MaxGas, stored gas figure of the parent, base fee stored) vs calc_base_fee of the C17 model); '
+            'compared after every block: BeginBlock response, every '
             'ResponseDeliverTx (code, codespace, data, gas wanted / used, events in order; log / info excluded as documented '
             'non-deterministic), EndBlock response incl. validator updates, app hash; non-trivial = at least 5 accepted transactions of '
             '3 kinds; a divergence names the height, the block index of the replay and the transaction; corpus witnesses: the two '
-            'BLOCKHASH shapes, the 256-block window, and a restart directly before a block with a transaction refused before the ante '
-            'handler (found by this driver on /repo before e83669d: GasUsed and app hash depended on the restart). mapscan: one case per site (typed scan with go/types over export data of `go list`). registries: DAO export / '
+            'BLOCKHASH shapes, the 256-block window, a restart directly before a block with a transaction refused before the ante '
+            'handler (found by this driver on /repo before e83669d: GasUsed and app hash depended on the restart), and base fee 7 / Block.MaxGas 8M / '
+            'denominator 50 with four minimum-step increases, two replicas restarted and a throw-away application in between (a divergence at a '
+            'BeginBlock response names both base fees). mapscan: one case per site (typed scan with go/types over export data of `go list`). registries: DAO export / '
             'sorted precompile keys / blocked addresses vs the model, and a metamorphic run of the real StateDB (same final values, '
             'differently ordered journals, incl. a failing blocked-address credit) whose store fingerprints must agree. upgrade175: the '
             'real v1.7.5 handler run several times on forks of one state with hundreds of liquid-token holders must write the same state',
     'trusted_base': [
         'Coq 8.16.1 kernel incl. vm_compute (no native_compute); std++ 1.8.0 gmap / sorting',
         'axioms: none (Print Assumptions: closed under the global context for every theorem of Props/C01.v)',
-        'harness: harness/blocks.go, blockgen.go, replicas.go, replica_perturb.go, envprobe.go, asm.go, mapscan.go (go/parser + go/types, export data from `go list -export`), '
+        'harness: harness/blocks.go, blockgen.go, blockparams.go, feeregime.go, replicas.go, replica_perturb.go, envprobe.go, asm.go, mapscan.go (go/parser + go/types, export data from `go list -export`), '
         'registries.go, upgrade175.go + vlib/core.py; the replicas share one OS process except the separate-process replica',
         'reviewed by hand: corpus/C01/map_range_sites.json (5 entries); the automatic site rules of mapscan.go',
         'not verified, sampled only: Go runtime map order and scheduling, CometBFT (the harness plays its role: header, votes, '
@@ -76,6 +103,10 @@ P = {
         'the BLOCKHASH model abstracts a header hash to non-zero; HistoricalEntries is constant within a history (no generated '
         'transaction changes staking params)',
         'log and info strings of responses are not consensus data (CometBFT excludes them from the results hash)',
+        'fee market: the harness plays CometBFT and hands the application the Block.MaxGas it stored itself (x/consensus); parameter sets that halt '
+        'every node alike (ElasticityMultiplier 0, gas target 0) are outside the generated domain; the in-process "restart" perturbation opens a '
+        'new application object in the SAME operating-system process, package-level state of the process is fresh only in the separate-process '
+        'replica (which runs the whole history in one process of its own)',
         'the node-local settings varied are: minimum-gas-prices, home, inv-check-period, IAVL cache size, inter-block cache, pruning, '
         'evm max-tx-gas-wanted, trace; index-events is not varied because it legitimately sets the `index` flag of returned events',
     ],
